@@ -13,11 +13,13 @@ import sys
 
 VERIF = os.path.dirname(os.path.dirname(os.path.abspath(__file__)))
 # which additional checks to try for a seeded change filed under another property
-ALSO = {"C04a": ["C11"], "C05b": ["C11"], "C06b": ["C11"], "C07a": ["C11"], "C03b": ["C11"]}
+ALSO = {"C04a": ["C11"], "C05b": ["C11"], "C06b": ["C11"], "C07a": ["C11"], "C05c": ["C11"], "C07d": ["C11"],
+        "C09d": ["C10"]}
 FIX_PROPS = {"D1": ["C04", "C06"], "D2": ["C12"], "D3": ["C08"], "D4": ["C02"], "D5": ["C02"], "D6": ["C05"],
-             "D7": ["C11", "C07"], "D8": ["C16"], "D9": ["C16"], "D10": ["C01"], "D11": ["C02", "C08"],
+             "D7": ["C11", "C07"], "D9": ["C16"], "D10": ["C01"], "D11": ["C02", "C08"],
              "D12": ["C11"], "D13": ["C11"], "D14": ["C19"], "D15": ["C18"], "D16": ["C05"], "D17": ["C10"],
-             "D18": ["C05"], "D19": ["C08"], "D20": ["C09"], "D21": ["C16"]}
+             "D18": ["C05"], "D19": ["C08"], "D20": ["C09"], "D21": ["C16"], "D22": ["C03", "C05"],
+             "D23": ["C10", "C09"], "D24": ["C11"], "D25": ["C15"], "D26": ["C07"]}
 
 
 def run(job):
